@@ -74,7 +74,7 @@ func bindCollator(c *Ctx, r *Rec) *collRoles {
 	}
 	cr.L, cr.E, cr.G = get("LesserRank"), get("EqualRank"), get("GreaterRank")
 	if cr.depthF == nil || cr.maxF == nil || cr.rankT == nil || cr.L == -99 || cr.E == -99 || cr.G == -99 {
-		r.undecided("bind", "agent."+n.Obj().Name(), "", "cannot bind depth counter (written int field), maximum (frozen int field) and the Rank constants")
+		r.skip("bind", "agent."+n.Obj().Name(), "", "cannot bind depth counter (written int field), maximum (frozen int field) and the Rank constants")
 		return nil
 	}
 	return cr
